@@ -10,6 +10,14 @@ from .kernel import canon
 CLASS, NODE_ID, GRAPH_ID, NAME, TYPE = 'Class', 'NodeID', 'GraphID', 'Name', 'Type'
 
 
+def _safe(d):
+    """property dict with JSON-able keys (networkx bookkeeping may use tuples as keys)"""
+    out = {}
+    for k, v in d.items():
+        out[k if isinstance(k, str) else repr(k)] = _safe(v) if isinstance(v, dict) else v
+    return out
+
+
 def graph_state(importer, graph_id):
     """-> {'nodes': {nid: [props,...]}, 'edges': {'a~b': props}} for one graph id (GraphID dropped from props)"""
     inst = importer.storage.storage_instance
@@ -25,7 +33,7 @@ def graph_state(importer, graph_id):
         for a, z, d in G.edges(selset, data=True):
             if a in selset and z in selset:
                 k = '~'.join(sorted({str(G.nodes[a].get(NODE_ID)), str(G.nodes[z].get(NODE_ID))}))
-                edges[k] = dict(d)
+                edges[k] = _safe(d)
     else:
         g = G.get(graph_id) if graph_id in G else None
         if g is not None:
@@ -35,7 +43,7 @@ def graph_state(importer, graph_id):
                 nodes.setdefault(str(d.get(NODE_ID)), []).append(d)
             for a, z, d in g.edges(data=True):
                 k = '~'.join(sorted({str(g.nodes[a].get(NODE_ID)), str(g.nodes[z].get(NODE_ID))}))
-                edges[k] = dict(d)
+                edges[k] = _safe(d)
     return {'nodes': nodes, 'edges': edges}
 
 
